@@ -8,11 +8,18 @@
 //	mode=json n=<instances> sc=<0|clients> tmo=<seconds>|tmoms=<ms> oe=<0|1> e=<tag|call|k:v,..|field:val,..>;...
 //	    run through the real engine (startup once(n), rps unlimited, passes 1); observation = sorted multisets.
 //	    oe=1: an entry without metadata / payload has no such key in the file (otherwise an empty object).
+//	    provider options: pas=<passes, 0 = unlimited> lim=<limit> cc=<chosen tags> coe=1 (continueonerror) mas=<maxammosize>;
+//	    an entry !<k> is a line that cannot be decoded (k = which way); sce=1: shared client pool enabled whatever sc says
+//	    (sc may be 0 or negative); a text *<n>*<c> stands for n copies of c; a metadata key x-fault with a gRPC status
+//	    code number as value makes the recording server refuse the call with that status
 //	mode=json run=sched ... sched=<instance digit per entry>
 //	    the real provider and n real guns bound the way the instance pool does it, entry k fired by instance
 //	    sched[k] by one goroutine; observation = the trace entry by entry + number of connections used.
-//	mode=scen run=sched n=.. tmo=.. users=a,b,.. g=<const> calls=<name|call|k:tmpl,..|field:valtmpl,..|pre>;..
-//	    scns=<name:weight:req+req*2..>;.. sched=<instance digit per shot>
+//	    when the schedule asks for more ammo than the provider delivers the trace ends with out-of-ammo and perr=<how
+//	    the provider ended: ok | decode | scan | noammo>
+//	mode=scen run=sched n=.. tmo=.. users=a,b,.. g=<const> calls=<name|call|k:tmpl,..|field:valtmpl,..|pre|a<code>>;..
+//	    scns=<name:weight:req+req*2+req*2_<sleep ms>..>;.. sched=<instance digit per shot>
+//	    a<code>: an assert/response postprocessor demanding that status code; a name may be defined twice (the last wins)
 //	    N guns shot one at a time in the given order by one goroutine (deterministic); observation = the trace.
 //	mode=scen run=engine ... shots=<K>
 //	    the same pool through the real engine with n concurrent instances and rps once(K), in a child process
@@ -67,6 +74,13 @@ func main() {
 			"parsed or executed) shot by 1..4 real guns in generated instance orders and through the real engine; every " +
 			"mode also with the descriptors served by a separate reflection-only endpoint (reflect_port, target without " +
 			"reflection) and / or a reflection API demanding reflect_metadata, combined with shared client on/off; " +
+			"round 3: the grpc/json provider's options (passes 1..3 and unlimited, limit, chosen cases, continueonerror, " +
+			"maxammosize) over files with undecodable lines (eight kinds, also after the pooled ammo objects are recycled " +
+			"and in a second pass), lines longer than the scanner's buffer, tags shared by several entries, empty arrays; " +
+			"shared client pool enabled with client-number 0 / negative; calls REFUSED by the server with any gRPC status " +
+			"(all seventeen codes and numbers outside them, injected by a metadata key) in both guns; scenario steps with " +
+			"assert/response postprocessors, wrong credentials, a template failure coinciding with an ill-typed payload, " +
+			"requests in the name(count, sleep) form, call names defined twice; " +
 			"thorough adds exhaustive schedules / pool shapes (x reflect_port) / the payload typing table; " +
 			"non-trivial = at least one call reached the server or a failed sample was produced",
 	})
